@@ -56,6 +56,8 @@ def cases(rng, tier):
         add(st, 'thumb16')
     for kind, w in class_directed_words(rng, tier):
         st = stepgen.random_state(rng, t, thumb=(kind != 'arm'), mpu=False)
+        if rng.random() < 0.3:          # optional extensions switch on other code paths (64-bit single-copy accesses, ...)
+            st['cfg']['have_lpae'] = True
         for i in range(33):        # addresses inside mapped memory so that transfers complete and reach write-back
             if rng.random() < 0.7:
                 st['R'][i] = 0x1000 + 8 * rng.randrange(0, 24)
